@@ -1,6 +1,6 @@
 INIT Init
 NEXT Next
 CONSTANTS
-  FSet = {"a1", "a2", "a3", "dup", "rev", "drop1"}
+  FSet = {"a1", "a2", "dup", "rev", "drop1"}
   MaxFs = 5
   MaxScript = 5
